@@ -95,6 +95,8 @@ func fnExprJS(e *sx) string {
 		return "Function(" + strconv.Quote(fnBodyJS(f[2], f[3], f[4])) + ")"
 	case "pro":
 		return "Object.getPrototypeOf(" + fnExprJS(a[0]) + ")"
+	case "fcc":
+		return "String.fromCharCode(" + a[0].name + ")"
 	case "rgx":
 		return "/x/"
 	case "cnd":
@@ -199,6 +201,15 @@ func fnBlockJS(s *sx) string {
 	return "{ " + strings.Join(st, " ") + " }"
 }
 
+// fnStmtsJS renders a statement list without braces (the consequent of a switch clause).
+func fnStmtsJS(s *sx) string {
+	var st []string
+	for _, x := range s.args {
+		st = append(st, fnStmtJS(x))
+	}
+	return strings.Join(st, " ")
+}
+
 func fnStmtJS(s *sx) string {
 	a := s.args
 	switch s.name {
@@ -243,6 +254,16 @@ func fnStmtJS(s *sx) string {
 		return "for (var " + a[0].name + " = " + fnExprJS(a[1]) + " in " + fnExprJS(a[2]) + ") " + fnBlockJS(a[3])
 	case "LB":
 		return a[0].name + ": " + fnStmtJS(a[1])
+	case "SW":
+		out := "switch (" + fnExprJS(a[0]) + ") { "
+		for _, c := range a[1:] {
+			if c.name == "DF" {
+				out += "default: " + fnStmtsJS(c.args[0]) + " "
+			} else {
+				out += "case " + fnExprJS(c.args[0]) + ": " + fnStmtsJS(c.args[1]) + " "
+			}
+		}
+		return out + "}"
 	case "BR":
 		if a[0].name == "_" {
 			return "break;"
